@@ -42,6 +42,7 @@ fn vleaves(v: &Value, out: &mut Vec<u64>) { match v.as_array() { Some(a) => { vl
 fn run_sdd(c: &Value) -> CaseResult {
     let b = CompressionSddBuilder::new(vtree(&c["vtree"]));
     run_sdd_on("compression", &b, c)?;
+    if c["cnf"].is_null() { return Ok(()); }   // the semantic builder compiles clause lists only (its ite is a todo!())
     let b2 = SemanticSddBuilder::<{ primes::U64_LARGEST }>::new(vtree(&c["vtree"]));
     run_sdd_on("semantic", &b2, c)
 }
@@ -59,6 +60,18 @@ fn run_sdd_on<'a, B: SddBuilder<'a>>(which: &str, b: &'a B, c: &Value) -> CaseRe
             let a = asg(m);
             if seval(d, &a) != ev(&c["expr"], &a) { return Err(format!("{which} SDD compile_logical_expr: diagram is {} on {:?}, the expression is {}", seval(d, &a), a, ev(&c["expr"], &a))); }
             if seval(d2, &a) != ev(&c["expr"], &a) { return Err(format!("{which} SDD compile_plan: diagram is {} on {:?}, the plan means {}", seval(d2, &a), a, ev(&c["expr"], &a))); }
+        }
+    }
+    if let Some(es) = c["exprs"].as_array() {
+        // many expressions in ONE builder (caches and unique tables are shared between them)
+        if which == "compression" {
+            for (k, e) in es.iter().enumerate() {
+                let d = b.compile_logical_expr(&expr(e));
+                for m in 0..(1usize << nv) {
+                    let a = asg(m);
+                    if seval(d, &a) != ev(e, &a) { return Err(format!("{which} SDD compile_logical_expr (expression {k} of the batch: {e}): diagram is {} on {:?}, the expression is {}", seval(d, &a), a, ev(e, &a))); }
+                }
+            }
         }
     }
     if !c["cnf"].is_null() {
@@ -216,6 +229,28 @@ pub fn candidates(seed: u64) -> Vec<Value> {
             let vt4 = [json!([[0, 1], [2, 3]]), json!([[[3, 1], 0], 2]), json!([2, [0, [3, 1]]]), json!([[1, [3, 0]], 2])][nx(4) as usize].clone();
             let cnf4: Vec<Vec<i64>> = (0..1 + nx(5)).map(|_| (0..1 + nx(3)).map(|_| { let v = 1 + nx(4) as i64; if nx(2) == 0 { v } else { -v } }).collect()).collect();
             out.push(json!({"case": "compile_sdd", "cnf": cnf4, "vtree": vt4}));
+        }
+    }
+    // systematic expressions over three variables for the SDD builder: o1(o2(l_i, l_j), l_k) and ite(l_i, o2(l_j, l_k), l_m) over all
+    // literals; every expression under two of the twelve vtrees; one builder per (vtree, batch of ~120 expressions)
+    {
+        let lits: Vec<Value> = (0..3).flat_map(|v| vec![json!(["lit", v, true]), json!(["lit", v, false])]).collect();
+        let mut batches: Vec<Vec<Value>> = vec![vec![]; 12];
+        let mut cnt = 0usize;
+        for i in 0..6 { for j in 0..6 { for k in 0..6 {
+            for o2 in ["and", "or", "xor", "iff"] {
+                for o1 in ["and", "or", "xor", "iff"] {
+                    let e = json!([o1, [o2, lits[i], lits[j]], lits[k]]);
+                    batches[cnt % 12].push(e.clone()); batches[(cnt + 5) % 12].push(e);
+                    cnt += 1;
+                }
+                let e = json!(["ite", lits[i], [o2, lits[j], lits[k]], lits[(i + j + k) % 6]]);
+                batches[cnt % 12].push(e);
+                cnt += 1;
+            }
+        } } }
+        for (vi, bt) in batches.into_iter().enumerate() {
+            for chunk in bt.chunks(120) { out.push(json!({"case": "compile_sdd", "exprs": chunk, "vtree": vts[vi]})); }
         }
     }
     // five variables: left-linear, right-linear, balanced and two mixed vtrees, random CNFs and expressions
